@@ -59,7 +59,13 @@ structure RuleAcc where
 structure Mon where
   /-- pools whose refund has been observed -/
   ended    : List PoolId := []
+  /-- the exact reward per share of every rule, accrued block by block from the OBSERVED stakes,
+  rates, start and end heights (independent of the implementation's accumulator and of when
+  the implementation chooses to release), and the number of releases the rule "every accepted
+  operation on an active pool brings it up to date" prescribes -/
   accs     : AMap (PoolId × Denom) RuleAcc := []
+  /-- height up to which the accrual of a pool has been computed -/
+  accH     : AMap PoolId Int := []
   ledger   : AMap (Addr × PoolId × Denom) Ledger := []
   deriving Inhabited
 
@@ -82,10 +88,42 @@ def topUpOf (op : Op) (res : String) (id : PoolId) (d : Denom) : Nat :=
   | .adjustPool _ i add _ => if res == "ok" ∧ i = id then amountOf (add.getD []) d else 0
   | _ => 0
 
-/-- what the pool released in this step in denom `d` according to the rule "per block × span
-while someone is staked" -/
-def expectedRelease (p q : Pool) (r : Rule) : Nat :=
-  if q.last ≠ p.last ∧ p.locked > 0 then r.rpb * (q.last - p.last).toNat else 0
+/-- does this step have to bring pool `id` up to date?  Every accepted stake / harvest / adjust
+(they require a pool that has not ended), an accepted unstake while the pool is still active,
+and the refund (destroy, or the EndBlocker at the end height). -/
+def mustUpdate (pre : State) (op : Op) (res : String) (post : State) (id : PoolId) (p : Pool) : Bool :=
+  isRefundStep pre op res post id ||
+  (res == "ok" && C06.active pre id p && decide (pre.height ≤ p.endH) &&
+    match op with
+    | .stake _ i _ _ | .unstake _ i _ _ | .harvest _ i | .adjustPool _ i _ _ => i == id
+    | _ => false)
+
+/-- what the pool has to release in this step in denom `d` according to the rule "per block ×
+span while someone is staked", from the observed pre-state only (`p` is the pool before the
+step): the span runs from the last distribution height to the height of the operation (the end
+height for an end-block refund) -/
+def expectedRelease (pre : State) (op : Op) (res : String) (post : State) (id : PoolId) (p : Pool) (r : Rule) : Nat :=
+  if mustUpdate pre op res post id p ∧ p.locked > 0 then
+    r.rpb * ((match op with | .endBlocks _ => p.endH | _ => pre.height) - p.last).toNat
+  else 0
+
+/-- advance the time-based accrual of every pool of the observed state `s` to height `H`: an
+active pool with stake accrues `rewardPerBlock / totalStake` per share and block, up to its
+end height -/
+def accrueTo (m : Mon) (s : State) (H : Int) : Mon :=
+  s.pools.foldl (fun m e =>
+    let id := e.1
+    let p := e.2
+    let h0 := (AMap.get? m.accH id).getD H
+    let upTo := if H < p.endH then H else p.endH
+    let m1 : Mon :=
+      if C06.active s id p ∧ p.locked > 0 ∧ upTo > h0 then
+        p.rules.foldl (fun m r =>
+          let ra := AMap.getD m.accs (id, r.denom) {}
+          let ra' : RuleAcc := { ra with acc := ra.acc + ((r.rpb * (upTo - h0).toNat : Nat) : Rat) / (p.locked : Rat) }
+          { m with accs := AMap.set m.accs (id, r.denom) ra' }) m
+      else m
+    { m1 with accH := AMap.set m1.accH id (if H > h0 then H else h0) }) m
 
 def sumNat (xs : List Nat) : Nat := xs.foldl (· + ·) 0
 
@@ -108,6 +146,11 @@ def fairB (l : Ledger) : Bool :=
 def check (m : Mon) (pre : State) (op : Op) (res : String) (post : State) : Mon × List String := Id.run do
   let mut m := m
   let mut fails : List String := []
+  -- time-based accrual of the exact shares, from the observed pre-state
+  m := accrueTo m pre pre.height
+  match op with
+  | .endBlocks _ => m := accrueTo m pre post.height
+  | _ => pure ()
   -- per-pool budget clauses
   for (id, q) in post.pools do
     match getPool pre id with
@@ -138,16 +181,16 @@ def check (m : Mon) (pre : State) (op : Op) (res : String) (post : State) : Mon 
             if r'.total != r.total + topUp then
               fails := fails ++ [s!"clause=total pool={id} denom={r.denom}"]
             let left : Int := (r.remaining : Int) + topUp - r'.remaining
-            let rel := expectedRelease p q r
+            let rel := expectedRelease pre op res post id p r
             if refundStep then
               if r'.remaining != 0 || left < rel then
                 fails := fails ++ [s!"clause=refund pool={id} denom={r.denom}"]
             else if left != (rel : Int) then
               fails := fails ++ [s!"clause=release pool={id} denom={r.denom}"]
-            -- fairness reference: exact per-share accumulator
-            if rel > 0 ∧ (refundStep ∨ left = (rel : Int)) then
+            -- one prescribed release: one more truncation of the on-chain accumulator
+            if rel > 0 then
               let ra := AMap.getD m.accs (id, r.denom) {}
-              let ra' : RuleAcc := { acc := ra.acc + (rel : Rat) / (p.locked : Rat), nRel := ra.nRel + 1 }
+              let ra' : RuleAcc := { ra with nRel := ra.nRel + 1 }
               m := { m with accs := AMap.set m.accs (id, r.denom) ra' }
         if refundStep then
           if (post.queue.any fun e => e.2 = id) then
@@ -169,7 +212,7 @@ def check (m : Mon) (pre : State) (op : Op) (res : String) (post : State) : Mon 
       | some p =>
         if isRefundStep pre op res post id ∧ p.creator = c then
           match ruleOf p d, ruleOf q d with
-          | some r, some _ => (r.remaining : Int) - (expectedRelease p q r : Int)
+          | some r, some _ => (r.remaining : Int) - (expectedRelease pre op res post id p r : Int)
           | _, _ => 0
         else 0
       | none => (0 : Int)).foldl (· + ·) 0
@@ -190,7 +233,7 @@ def check (m : Mon) (pre : State) (op : Op) (res : String) (post : State) : Mon 
       | some p => (match ruleOf p d, ruleOf q d with
                    | some r, some r' =>
                      let left : Int := (r.remaining : Int) + topUpOf op res id d - r'.remaining
-                     if isRefundStep pre op res post id then (if r'.remaining = 0 then (expectedRelease p q r : Int) else 0)
+                     if isRefundStep pre op res post id then (if r'.remaining = 0 then (expectedRelease pre op res post id p r : Int) else 0)
                      else left
                    | _, _ => 0)
       | none => (0 : Int)).foldl (· + ·) 0
